@@ -36,12 +36,13 @@ import pyramid.view as pview
 import vfutil
 
 RULE = ('one case = one application (context classes C<B<A, a class E used both as a context and as a raised '
-        'exception, one route, 0-3 initial views) and an operation sequence of <= 8 ops over {request, request '
+        'exception, two routes /r/*traverse and /g/*traverse (use_global_views) sharing context and view name with plain requests, '
+        '0-3 initial views incl. route-bound views and route-bound exception views) and an operation sequence of <= 8 ops over {request, request '
         'pre-empted by a whole registration at a chosen internal step (after the cache reference read / before the '
         'j-th adapter lookup / with the lock held before the dict write) of its first or second _find_views call, '
         'registration (new view, replacement, predicate sibling -> multiview, exception view, notfound view), '
         'registration pre-empted after its m-th adapter mutation by a whole request, burst of distinct missing URLs}; '
-        'a case is non-trivial when a registration lands inside an in-progress lookup or a lookup lands inside a '
+        'a case is non-trivial when the same (context, view name) is looked up through two request interfaces, a registration lands inside an in-progress lookup or a lookup lands inside a '
         'registration, or a request is served from a warm cache entry, or a registration follows a warm-up of the same '
         'URL; distinct = distinct canonical case JSON')
 
@@ -96,22 +97,35 @@ def apply_reg(config, r):
     if kind == 'nf':
         config.add_notfound_view(view_for(r['tag']))
     elif kind == 'exc':
-        config.add_exception_view(view_for(r['tag']), context=E)
+        if _route(r):
+            config.add_exception_view(view_for(r['tag']), context=E, route_name=_route(r))
+        else:
+            config.add_exception_view(view_for(r['tag']), context=E)
     else:
         kw = {'name': r.get('name', '')}
         if r.get('context'):
             kw['context'] = CLS[r['context']]
         if r.get('param'):
             kw['request_param'] = r['param']
-        if r.get('route'):
-            kw['route_name'] = 'r'
+        if _route(r):
+            kw['route_name'] = _route(r)
         config.add_view(view_for(r['tag']), **kw)
     config.commit()
 
 
+def _route(d):
+    """None (no route) | 'r' (route without global views) | 'g' (route with use_global_views=True)"""
+    r = d.get('route')
+    return 'r' if r is True else (r or None)
+
+
 def make_config(regs):
     config = Configurator(root_factory=_root_factory)
-    config.add_route('r', '/r/{z}')
+    # two routes whose request interfaces share context and view name with plain requests: /r/<name> and /g/<name>
+    # traverse to the same root with the same view name; `g` falls back to the global views (its request interface
+    # extends IRequest), `r` does not; exception views are looked up through `<route>_combined_IRequest` for both
+    config.add_route('r', '/r/*traverse')
+    config.add_route('g', '/g/*traverse', use_global_views=True)
     config.add_view(boom_view, name='boom')
     config.commit()
     for r in regs:
@@ -120,7 +134,7 @@ def make_config(regs):
 
 
 def req_path(q):
-    path = '/r/1' if q.get('route') else '/' + q.get('name', '')
+    path = ('/%s/%s' % (_route(q), q.get('name', ''))) if _route(q) else '/' + q.get('name', '')
     qs = ['ctx=' + q.get('ctx', 'C')]
     if q.get('q'):
         qs.append(q['q'] + '=1')
@@ -172,6 +186,7 @@ def _w_find_views(registry, request_iface, context_iface, view_name, view_types=
         res = _orig_find_views(registry, request_iface, context_iface, view_name, view_types=view_types,
                                view_classifier=view_classifier)
         call['res'] = list(res)
+        call['res_obj'] = res
     finally:
         live.cur_call = prev
         call['dict'] = dict((k, list(v)) for k, v in registry._view_lookup_cache.items())
@@ -277,7 +292,8 @@ class Live:
     def on_point(self, point, key=None):
         c, a = self.cur_call, self.armed
         if c is not None and point == 'probe' and not self.in_injection:
-            c['key'] = key                      # the cache key the code really uses for this query
+            if c['key'] is None:
+                c['key'] = key                  # the cache key the code really uses for this query (its first probe)
         if c is not None and a is not None and not self.in_injection and a['f'] == c['idx'] and a['at'] == point:
             self.fire()
 
@@ -382,6 +398,18 @@ def run_impl(case):
             except Exception:
                 if not live.deadlock:
                     raise
+            if not live.deadlock:
+                # at rest after EVERY op: every entry of the current cache dict is the cold scan of the current
+                # registrations (no_stale_entry_at_rest on the implementation, over all keys), and no list ever
+                # returned by _find_views has been changed behind the caller's back (cached values are not aliased)
+                st = stale_entries(live, trace)
+                if st:
+                    viol.append({'at': i, 'kind': 'stale-entry', 'impl': st, 'expected': 'every cached list equals a cold scan',
+                                 'detail': 'after op %d the current cache dict holds entries that differ from a cold scan of the current registrations: %r' % (i, st)})
+                mu = mutated_results(live)
+                if mu:
+                    viol.append({'at': i, 'kind': 'result-mutated', 'impl': mu, 'expected': 'a returned list is never changed by a later lookup',
+                                 'detail': 'after op %d a list returned earlier by _find_views has been mutated by a later lookup: %r' % (i, mu)})
             if live.deadlock:
                 viol.append({'at': i, 'kind': 'deadlock', 'impl': 'registry._lock requested while it is held', 'expected': 'the operation completes',
                              'detail': 'op %d never completes (a lookup or a registration concurrent with a lookup waits forever): registry._lock is requested while it is held' % i})
@@ -391,24 +419,36 @@ def run_impl(case):
         if v['kind'] in ('response', 'split-response'):
             st = stale_entries(live, trace)
             if st:
-                v['detail'] += '; the current cache dict holds entries that differ from a cold scan of the current registrations (view names %r)' % (st,)
+                v['detail'] += '; the current cache dict holds entries that differ from a cold scan of the current registrations (%r)' % (st,)
             break
     return trace, viol, live
 
 
+def _qname(q):
+    return '%s/%s/%s/%r' % (CLASSIFIERS.get(q[0], '?'), getattr(q[1], '__name__', q[1]), getattr(q[2], '__name__', q[2]), q[3])
+
+
 def stale_entries(live, trace):
-    """view names whose entry in the CURRENT cache dict is not the cold scan of the current registrations"""
+    """queries whose entry in the CURRENT cache dict is not the cold scan of the current registrations, plus keys
+    nobody looked up"""
     seen, out = {}, []
     for t in trace:
         for c in t.get('calls', []):
             seen[c['key']] = c['q']
     cache = live.reg._view_lookup_cache
-    for key, q in seen.items():
-        if key in cache:
-            cold = [v for v in (live.o_registered(s[0], s[1], s[2]) for s in slots_of(q)) if v is not None]
-            if [id(x) for x in cache[key]] != [id(x) for x in cold]:
-                out.append(q[3])
+    for key in list(cache.keys()):
+        q = seen.get(key)
+        if q is None:
+            out.append('entry under a key no lookup used')
+            continue
+        cold = [v for v in (live.o_registered(s[0], s[1], s[2]) for s in slots_of(q)) if v is not None]
+        if [id(x) for x in cache[key]] != [id(x) for x in cold]:
+            out.append(_qname(q))
     return sorted(set(out))
+
+
+def mutated_results(live):
+    return sorted({_qname(c['q']) for c in live.calls if 'res_obj' in c and [id(x) for x in c['res_obj']] != [id(x) for x in c['res']]})
 
 
 def _run_op(live, i, op, kind, before_regs, trace, viol):
@@ -616,35 +656,51 @@ def check_case(case, ctx, want_model=True):
 INJ_POINTS = ['probe', 'write'] + list(range(0, 30))
 
 
+ROUTES = [None, None, None, None, None, 'g', 'g', 'g', 'r']
+
+
 def gen_reg(rng, tag, allow_e=True):
     r = rng.random()
     if r < 0.05:
         return {'kind': 'nf', 'tag': tag}
-    if r < 0.13 and allow_e:
-        return {'kind': 'exc', 'tag': tag}
-    ctxs = [None, 'A', 'B', 'B', 'C', 'C'] + (['E'] if allow_e else [])
-    reg = {'kind': 'view', 'tag': tag, 'context': rng.choice(ctxs), 'name': rng.choice(['', 'x', 'x', 'y']),
+    if r < 0.15 and allow_e:
+        reg = {'kind': 'exc', 'tag': tag}
+        if rng.random() < 0.4:
+            reg['route'] = rng.choice(['g', 'r'])
+        return reg
+    ctxs = [None, None, 'A', 'B', 'B', 'C', 'C'] + (['E'] if allow_e else [])
+    reg = {'kind': 'view', 'tag': tag, 'context': rng.choice(ctxs), 'name': rng.choice(['', '', 'x', 'x', 'y']),
            'param': rng.choice([None, None, None, 'p', 'q'])}
-    if rng.random() < 0.12:
-        reg['route'] = True
-        reg['name'] = ''
+    rt = rng.choice(ROUTES)
+    if rt:
+        reg['route'] = rt
     return reg
 
 
 def gen_req(rng, earlier, allow_e=True):
-    if earlier and rng.random() < 0.5:
+    r0 = rng.random()
+    if earlier and r0 < 0.35:
         return dict(rng.choice(earlier))
+    if earlier and r0 < 0.65:
+        # the same context and view name through another request interface
+        q = dict(rng.choice(earlier))
+        others = [x for x in (None, 'g', 'r') if x != _route(q)]
+        rt = rng.choice(others + ['g'] if _route(q) != 'g' else others)
+        q.pop('route', None)
+        if rt:
+            q['route'] = rt
+        return q
     r = rng.random()
     q = {'ctx': rng.choice(['A', 'B', 'C', 'C', 'C'] + (['E'] if allow_e else []))}
-    if r < 0.10:
+    if r < 0.12:
         q['name'] = 'boom'
-    elif r < 0.18:
+    elif r < 0.20:
         q['name'] = 'nope'
-    elif r < 0.28:
-        q['route'] = True
-        q['name'] = ''
     else:
-        q['name'] = rng.choice(['', 'x', 'x', 'y'])
+        q['name'] = rng.choice(['', '', 'x', 'x', 'y'])
+    rt = rng.choice(ROUTES)
+    if rt:
+        q['route'] = rt
     if rng.random() < 0.3:
         q['q'] = rng.choice(['p', 'q'])
     return q
@@ -652,9 +708,8 @@ def gen_req(rng, earlier, allow_e=True):
 
 def gen_inject(rng, tag, req, allow_e):
     reg = gen_reg(rng, tag, allow_e)
-    if rng.random() < 0.6 and reg.get('kind') == 'view' and not req.get('route'):
+    if rng.random() < 0.6 and reg.get('kind') == 'view' and req.get('name') not in ('boom', 'nope'):
         reg['name'] = req.get('name', '')                      # aim at the URL being looked up
-        reg.pop('route', None)
     r = rng.random()
     at = 'probe' if r < 0.12 else 'write' if r < 0.27 else rng.choice([0, 1, 2, 3, 4, 5, 6, 7, 8, 9, 10, 11, 12, 14, 17, 20, 26, 29])
     return {'f': 0 if rng.random() < 0.8 else 1, 'at': at, 'reg': reg}
@@ -686,17 +741,15 @@ def gen_case(rng, maxops=8):
             reg = gen_reg(rng, tag(), allow_e)
             if earlier and reg.get('kind') == 'view' and rng.random() < 0.6:
                 e = rng.choice(earlier)
-                if not e.get('route'):
+                if e.get('name') not in ('boom', 'nope'):
                     reg['name'] = e.get('name', '')
-                    reg.pop('route', None)
             ops.append({'op': 'reg', 'reg': reg})
         elif r < 0.90:
             q = gen_req(rng, earlier, allow_e)
             earlier.append(q)
             reg = gen_reg(rng, tag(), allow_e)
-            if reg.get('kind') == 'view' and not q.get('route') and rng.random() < 0.7:
+            if reg.get('kind') == 'view' and q.get('name') not in ('boom', 'nope') and rng.random() < 0.7:
                 reg['name'] = q.get('name', '')
-                reg.pop('route', None)
             ops.append({'op': 'split', 'reg': reg, 'after': rng.choice([0, 0, 1, 1, 2, 3]), 'req': q})
             if rng.random() < 0.7 and len(ops) < n:
                 ops.append({'op': 'get', 'req': dict(q)})
@@ -734,6 +787,28 @@ def enumerate_small(limit_points=None):
                     yield {'init': init, 'ops': pre + [{'op': 'reg', 'reg': reg}, {'op': 'get', 'req': q}, {'op': 'misses', 'n': 4, 'ctx': 'C'}]}
 
 
+def enumerate_ifaces(max_gets=5, max_with_reg=4):
+    """small-scope enumeration over 2 request interfaces (plain IRequest, the use_global_views route `g`) x 2 view
+    names x {lookups, registrations}: every sequence of <= max_gets lookups on an application that has a global and a
+    route-bound view for both names, and every sequence of <= max_with_reg lookups with one registration (a global or
+    a route-bound replacement for name '') inserted at every position — all orders, so every warm/cold combination"""
+    init = [{'kind': 'view', 'tag': 'G0', 'context': None, 'name': ''}, {'kind': 'view', 'tag': 'G1', 'context': None, 'name': 'x'},
+            {'kind': 'view', 'tag': 'R0', 'context': None, 'name': '', 'route': 'g'}, {'kind': 'view', 'tag': 'R1', 'context': 'B', 'name': 'x', 'route': 'g'}]
+    gets = [{'op': 'get', 'req': {'name': n, 'ctx': 'C', **({'route': 'g'} if rt else {})}} for n in ('', 'x') for rt in (None, 'g')]
+    regs = [{'op': 'reg', 'reg': {'kind': 'view', 'tag': 'N0', 'context': 'A', 'name': ''}},
+            {'op': 'reg', 'reg': {'kind': 'view', 'tag': 'N1', 'context': 'A', 'name': '', 'route': 'g'}}]
+    for L in range(1, max_gets + 1):
+        for seq in itertools.product(gets, repeat=L):
+            yield {'init': init, 'ops': [dict(o) for o in seq]}
+    for L in range(1, max_with_reg + 1):
+        for seq in itertools.product(gets, repeat=L):
+            for pos in range(L + 1):
+                for r in regs:
+                    ops = [dict(o) for o in seq]
+                    ops.insert(pos, dict(r))
+                    yield {'init': init, 'ops': ops}
+
+
 # ------------------------------------------------------------------------------------------------------
 # non-triviality, distribution
 
@@ -760,10 +835,16 @@ def features(case, info):
             f.add('miss_burst')
     if collisions(trace):
         f.add('key_collision')
+    byname = {}
+    for tt in trace:
+        for c in tt.get('calls', []):
+            byname.setdefault((c['q'][0], c['q'][2], c['q'][3]), set()).add(c['q'][1])
+    if any(len(v) > 1 for v in byname.values()):
+        f.add('same_context_and_name_through_two_request_ifaces')
     return f
 
 
-NONTRIVIAL = {'warm_hit', 'inject_scan', 'inject_probe', 'inject_write', 'lookup_inside_registration', 'registration_after_warmup'}
+NONTRIVIAL = {'same_context_and_name_through_two_request_ifaces', 'warm_hit', 'inject_scan', 'inject_probe', 'inject_write', 'lookup_inside_registration', 'registration_after_warmup'}
 
 
 def mixed_kind(m):
@@ -859,7 +940,13 @@ def run(ctx):
         cases += small
         exhaustive = True
         notes.append('small-scope enumeration: %d cases (3 initial apps x 5 registrations x 3 URLs x cold/warm x every injection point of the first/second lookup, every registrar pre-emption point)' % len(small))
+        ifc = list(enumerate_ifaces(5, 4))
+        cases += ifc
+        notes.append('request-interface enumeration: %d cases (2 request ifaces x 2 names: all lookup sequences <= 5, all sequences <= 4 with one registration at every position)' % len(ifc))
     else:
+        ifc = list(enumerate_ifaces(3, 2))
+        longer = list(enumerate_ifaces(4, 3))
+        cases += ifc + [longer[i] for i in sorted(rng.sample(range(len(longer)), 60))]
         small = list(enumerate_small(limit_points=['probe', 'write', 0, 4, 7, 8, 13, 29]))
         small = [small[i] for i in sorted(rng.sample(range(len(small)), 120))]
         cases += small
@@ -1057,7 +1144,7 @@ def search(ctx):
     """failing-input search on the implementation only (no model): the small-scope enumeration, then random"""
     viol, n = [], 0
     exhaustive = True
-    gens = itertools.chain(enumerate_small(limit_points=['probe', 'write', 0, 1, 2, 3, 4, 5, 6, 7, 8, 9, 10, 11, 13, 16, 29]),
+    gens = itertools.chain(enumerate_ifaces(4, 3), enumerate_small(limit_points=['probe', 'write', 0, 1, 2, 3, 4, 5, 6, 7, 8, 9, 10, 11, 13, 16, 29]),
                            (gen_case(ctx.rng) for _ in range(ctx.n(600, 5000))))
     for case in gens:
         n += 1
